@@ -62,6 +62,8 @@ def _(self: Obj['rbql_engine.TableIterator'], table: List[List[Cell]], column_na
     assumes(len(self.rows) == len(table) and self.pos == 0
             and forall(Int, lambda k: implies(0 <= k and k < len(table), self.rows[k] == contents(contents(table)[k]))), 'ghost-def: rows is the content of the caller table, pos counts the pulls')
     ensures(table_iter_inv(self) and self.pos == 0 and same(self.table, table), 'fresh_iterator_over_the_table')
+    ensures(self.normalize_column_names == normalize_column_names and self.variable_prefix == variable_prefix and is_none(self.column_names) == is_none(column_names)
+            and implies(not is_none(column_names), same(opt_val(self.column_names), opt_val(column_names))), 'configured_as_given')
     ensures(contents(table) == old(contents(table)), 'table_unchanged')
     modifies(self)
 
@@ -176,3 +178,65 @@ def _(self: Obj['rbql_engine.ListTableRegistry'], table_id: Str, single_char_ali
     ensures(implies(not is_none(result), is_fresh(opt_val(result)) and opt_val(result).pos == 0 and opt_val(result).NR == 0), 'a_new_unread_iterator')
     ensures(contents(self.table_infos) == old(contents(self.table_infos)), 'registry_unchanged')
     modifies(fresh_only())
+
+
+# ---------------------------------------------------------------- query_table: the list front end (C13 entry point, C07 names handed back, C15 unused writer)
+@contract('rbql_engine.ensure_no_ambiguous_variables', name='C09.direct_names_ambiguity', props=['C09', 'C14'])
+def _(query_text: Str, input_column_names: List[Str], join_column_names: List[Str]):
+    # direct mode: a column name that both tables have and that occurs in the query text is a parsing error (before anything runs);
+    # a shared name the query does not mention is not
+    loop_types(0, column_name=Str)
+    local_types(join_column_names_set=Set[Str])
+    invariant(0, 0 <= __i and __i <= len(input_column_names), 'idx')
+    invariant(0, forall(Int, lambda j: implies(0 <= j and j < __i, not (contents(input_column_names)[j] in contents(join_column_names) and query_text.find(contents(input_column_names)[j]) != -1))), 'no_shared_name_used_so_far')
+    ensures(forall(Int, lambda j: implies(0 <= j and j < len(input_column_names),
+                                           not (contents(input_column_names)[j] in contents(join_column_names) and query_text.find(contents(input_column_names)[j]) != -1))), 'no_used_name_is_in_both_tables')
+    ensures(contents(input_column_names) == old(contents(input_column_names)) and contents(join_column_names) == old(contents(join_column_names)), 'names_untouched')
+    raises('rbql_engine.RbqlParsingError', exists(Int, lambda j: 0 <= j and j < len(input_column_names)
+                                                  and contents(input_column_names)[j] in contents(join_column_names) and query_text.find(contents(input_column_names)[j]) != -1), 'a_used_name_is_in_both_tables')
+
+
+@contract('rbql_engine.ListTableRegistry.__init__', name='C13.list_registry.init', props=['C13', 'C16'], store_policy='none')
+def _(self: Obj['rbql_engine.ListTableRegistry'], table_infos: List[NT['rbql_engine.ListTableInfo']], normalize_column_names: Bool):
+    ensures(same(self.table_infos, table_infos) and self.normalize_column_names == normalize_column_names, 'registered_as_given')
+    ensures(contents(table_infos) == old(contents(table_infos)), 'infos_untouched')
+    modifies(self)
+
+
+@pred
+def same_opt_list(a, b):
+    return is_none(a) == is_none(b) and implies(not is_none(a), same(opt_val(a), opt_val(b)))
+
+
+@contract('rbql_engine.query_table', name='C13.query_table', props=['C13', 'C07', 'C15', 'C09'], store_policy='none')
+def _(query_text: Str, input_table: List[List[Cell]], output_table: List[List[Cell]], output_warnings: List[Str], join_table: Opt[List[List[Cell]]],
+      input_column_names: Opt[List[Str]], join_column_names: Opt[List[Str]], output_column_names: Opt[List[Str]], normalize_column_names: Bool, user_init_code: Str):
+    # ghost definition: the rows of the caller's tables are the sources of this query
+    requires(forall(Int, lambda k: implies(0 <= k and k < len(input_table), is_src(contents(input_table)[k]))), 'input_rows_are_sources')
+    requires(implies(not is_none(join_table), forall(Int, lambda k: implies(0 <= k and k < len(opt_val(join_table)), is_src(contents(opt_val(join_table))[k])))), 'join_rows_are_sources')
+    local_types(input_iterator=Obj['rbql_engine.TableIterator'], output_writer=Obj['rbql_engine.TableWriter'], join_tables_registry=Opt[Obj['rbql_engine.ListTableRegistry']])
+    loop_types(0, column_name=Str)
+    # what is proved here are the obligations at the call sites: the direct-mode ambiguity check runs before anything else, the engine gets a
+    # new iterator over the caller's input table, a new unused writer over the caller's output table (preconditions of C15.query) and a
+    # registry that knows the join table as b and B; afterwards the header the engine gave the writer is copied, name by name, in order:
+    cut('query(query_text', same(input_iterator.table, input_table) and input_iterator.pos == 0 and table_iter_inv(input_iterator) and input_iterator.normalize_column_names == normalize_column_names
+        and input_iterator.variable_prefix == 'a' and is_none(input_iterator.column_names) == is_none(input_column_names)
+        and implies(not is_none(input_column_names), same(opt_val(input_iterator.column_names), opt_val(input_column_names))), 'engine_reads_the_callers_input_table_under_the_callers_names')
+    cut('query(query_text', same(output_writer.table, output_table) and is_none(output_writer.header) and fresh_writer(output_writer) and not output_writer.sorted_iface
+        and output_writer.header_calls == 0 and not same(output_writer, input_iterator) and contents(output_table) == old(contents(output_table)), 'engine_writes_to_the_callers_output_table_through_an_unused_writer')
+    cut('query(query_text', is_none(join_tables_registry) == is_none(join_table)
+        and implies(not is_none(join_table), len(opt_val(join_tables_registry).table_infos) == 2 and opt_val(join_tables_registry).normalize_column_names == normalize_column_names
+                    and contents(opt_val(join_tables_registry).table_infos)[0].table_id == 'b' and contents(opt_val(join_tables_registry).table_infos)[1].table_id == 'B'
+                    and same(contents(opt_val(join_tables_registry).table_infos)[0].table, opt_val(join_table)) and same(contents(opt_val(join_tables_registry).table_infos)[1].table, opt_val(join_table))
+                    and same_opt_list(contents(opt_val(join_tables_registry).table_infos)[0].column_names, join_column_names) and same_opt_list(contents(opt_val(join_tables_registry).table_infos)[1].column_names, join_column_names)), 'join_table_is_registered_as_b_and_B_under_the_callers_names')
+    cut('query(query_text', contents(input_table) == old(contents(input_table)) and implies(not is_none(join_table), contents(opt_val(join_table)) == old(contents(opt_val(join_table)))), 'nothing_touched_before_the_engine_runs')
+    # (query() may change anything -- its contract says nothing about which list the header is -- hence the guard: the caller's names list is not the header list itself)
+    invariant(0, not is_none(output_column_names) and not is_none(output_writer.header) and 0 <= __i and __i <= len(opt_val(output_writer.header)), 'idx')
+    invariant(0, implies(not same(opt_val(output_column_names), opt_val(output_writer.header)),
+                         len(opt_val(output_column_names)) == __i and contents(opt_val(output_column_names)) == contents(opt_val(output_writer.header))[:__i]), 'names_copied_so_far')
+    raises('rbql_engine.RbqlParsingError', True, 'query_error')
+    raises('rbql_engine.RbqlRuntimeError', True, 'query_error')
+    raises('rbql_engine.RbqlIOHandlingError', True, 'query_error')
+    raises('SyntaxError', True, 'query_error')
+    raises('AssertionError', True, 'query_error_or_nonempty_names_list')
+    modifies(anything())
